@@ -24,5 +24,15 @@ TEXT = {
         "note": _NOTE + "; NumPy-typed scalars are generated no wider than the operator they scale (wider ones are recorded as not judged, DESIGN 4.0)",
         "technique": "runtime monitoring: differential oracle (dense evaluation of the same expression) with sub-expression blame; exception monitor for mismatched shapes",
     },
+    "C04": {
+        "level": "The finite lattice (function x kind or ordered pair of kinds x declared annotation x admitted algorithm class x "
+                 "omitted/explicit optional arguments x real/complex x square/tall x two registry configurations) is enumerated "
+                 "completely (thorough; the quick tier enumerates a stated sub-lattice completely) and every tuple is executed on tiny "
+                 "real instances with a tap on the live resolver, so ambiguous / missing rules are observed at the top call and in "
+                 "nested dispatched calls. Exhaustive over the lattice as defined in the monitor, not over user-defined kinds.",
+        "note": _NOTE + "; the table of admitted algorithm classes per function is transcribed from the docstrings; nested lookups "
+                "are only observed when the selected rule gets far enough to make them",
+        "technique": "runtime monitoring: exhaustive execution of the dispatch lattice with a resolver tap (AmbiguousLookupError/NotFoundLookupError events)",
+    },
 }
 NOT_APPLICABLE = {}
